@@ -294,6 +294,15 @@ pub fn run(ctx: &Ctx) -> Report {
             2 => Just(Act::Printf(vec![FEl::F(Fld::Basename)])),
             2 => Just(Act::Printf(vec![FEl::Lit("skipped".into()), FEl::E(Esc::Newline)])),
             1 => Just(Act::Printf(vec![FEl::Lit("no newline".into())])),
+            // formats cut short by \\c: at the very start (nothing is printed), after some text, after the newline
+            1 => prop::sample::select(vec![
+                vec![FEl::E(Esc::Clear)],
+                vec![FEl::E(Esc::Clear), FEl::F(Fld::Basename), FEl::E(Esc::Newline)],
+                vec![FEl::Lit("cut".into()), FEl::E(Esc::Clear)],
+                vec![FEl::F(Fld::Basename), FEl::E(Esc::Newline), FEl::E(Esc::Clear)],
+                vec![FEl::E(Esc::Clear), FEl::E(Esc::Clear)],
+            ]).prop_map(Act::Printf),
+            1 => prop::sample::select(vec![vec![FEl::E(Esc::Clear)], vec![FEl::E(Esc::Clear), FEl::F(Fld::Basename)], vec![FEl::F(Fld::Basename), FEl::E(Esc::Clear), FEl::E(Esc::Newline)]]).prop_map(|f| Act::FPrintf("a".into(), f)),
             // hand-built octal escapes as last element: only code 10 written as the newline escape ends a line
             1 => prop_oneof![prop::sample::select(vec![0o012u16, 0o412, 0o1012, 0o2012, 0o7012, 0x010a, 0x0a0a, 0xff0a, 0o1156, 0x2028, 0x85]), 1u16..0xd7ff]
                 .prop_map(|c| Act::Printf(vec![FEl::F(Fld::Basename), FEl::E(Esc::Ascii(c))])),
@@ -321,6 +330,21 @@ pub fn run(ctx: &Ctx) -> Report {
         );
         st
     });
+    // interaction triples: three leaf kinds under every operator skeleton, two and three threads
+    let tr = crate::combo::run_triples(
+        ctx.seed,
+        &crate::combo::small_kinds(),
+        ctx.tier.pick(12, 1),
+        |t| {
+            let c = Case { tree: t.clone(), threads: None, assignment: if stable_hash(t) % 2 == 0 { vec![vec![0u8], vec![1]] } else { vec![vec![0u8, 2], vec![1], vec![3]] } };
+            let (v, s, tr) = judge(&c);
+            states.fetch_add(s, std::sync::atomic::Ordering::Relaxed);
+            transitions.fetch_add(tr, std::sync::atomic::Ordering::Relaxed);
+            v
+        },
+        |t| case_json(&Case { tree: t.clone(), threads: None, assignment: if stable_hash(t) % 2 == 0 { vec![vec![0u8], vec![1]] } else { vec![vec![0u8, 2], vec![1], vec![3]] } }),
+    );
+    total.merge(tr);
     // many matchers before the printers: identifier and tag numbers beyond 255
     let mut st = Stats::new();
     for n in [0usize, 100, 126, 127, 128, 130, 200] {
